@@ -240,3 +240,61 @@ for frag in (False, True):
                    bounds='reference-encoded Write Tag%s to the INT[4] tag at start index %d, declared element offset %d, with EVERY combination of declared count and carried '
                           'values: the tag changes only if the request is a complete well-formed write (then exactly the addressed elements), its length never changes, '
                           'no other tag changes, next request served' % (' Fragmented' if frag else '', _idx, _off), outside='')
+
+
+# ---- the UDP service: one thread/parser serves every peer, so nothing of one datagram may reach the next peer's -------------------------------------
+from vrt import srv           # noqa: E402
+from cpppo.server import network   # noqa: E402
+from cpppo.server.enip import main as enip_main   # noqa: E402
+
+glue.delog_all(enip_main)
+srv.install_stubs()
+HOSTILE, VICTIM = ('10.6.6.6', 666), ('10.9.9.9', 999)
+LIST_SERVICES = ref.encap(0x04, 0, 0, [3] * 8, 0, [])
+LIST_IDENTITY = ref.encap(0x63, 0, 0, [9] * 8, 0, [])
+UDP_DRIVES = ['cpppo.server.enip.main.enip_srv_udp', 'cpppo.server.enip.main.stats_for'] + FULL
+
+
+def _udp(datagrams):
+    sent, calls = srv.serve_udp([(bytes(bytearray(d)), a) for d, a in datagrams], tags=TAGS)
+    return [([x for x in r], a) for r, a in sent]
+
+
+UDP_BASE = _udp([(LIST_IDENTITY, VICTIM)])
+assert len(UDP_BASE) == 1 and UDP_BASE[0][1] == VICTIM and ref.un_encap(UDP_BASE[0][0])['command'] == 0x63
+UDP_BASE_LS = _udp([(LIST_SERVICES, HOSTILE)])
+assert len(UDP_BASE_LS) == 1
+
+
+def do_udp_trailing(n, ts):
+    """a complete valid frame followed by 1..len(ts) stray bytes in the SAME datagram, then another peer's valid request"""
+    n = 1 + concretize(n, len(ts))
+    got = _udp([(LIST_SERVICES + ts[:n], HOSTILE), (LIST_IDENTITY, VICTIM)])
+    mine = [r for r, a in got if a == VICTIM]
+    others = [r for r, a in got if a != VICTIM]
+    # the victim gets exactly the reply it gets when alone; the hostile peer at most its own List Services reply
+    return mine == [UDP_BASE[0][0]] and (others == [] or others == [UDP_BASE_LS[0][0]])
+
+
+define(globals(), 'C08', 'udp_trailing_bytes_do_not_leak', ['n', 't0', 't1', 't2'], "return do_udp_trailing(n, [t0, t1, t2])",
+       ['0 <= n <= 2 and 0 <= t0 <= 255 and 0 <= t1 <= 255 and 0 <= t2 <= 255'], timeout=2400, path_timeout=300, drives=UDP_DRIVES,
+       symbolic=['n: 1..3 stray bytes after the frame', 't0..t2: their values'],
+       bounds='real main.enip_srv_udp (scripted recvfrom): a datagram holding a complete List Services frame plus 1..3 arbitrary trailing bytes from one peer, then a '
+              'List Identity datagram from another peer: the second peer receives exactly the reply it receives when alone; the first at most its own reply',
+       outside='more than 3 stray bytes; more than two peers')
+
+
+def do_udp_garbage(n, bs):
+    """an arbitrary (short) datagram, then another peer's valid request"""
+    n = concretize(n, len(bs) + 1)
+    got = _udp([(bs[:n], HOSTILE), (LIST_IDENTITY, VICTIM)])
+    mine = [r for r, a in got if a == VICTIM]
+    return mine == [UDP_BASE[0][0]]
+
+
+for _n, _tier in ((3, 'quick'), (5, 'thorough')):
+    _bs = ['b%d' % i for i in range(_n)]
+    define(globals(), 'C08', 'udp_garbage_then_valid_%d' % _n, ['n'] + _bs, "return do_udp_garbage(n, [%s])" % ", ".join(_bs),
+           ['0 <= n <= %d' % _n, " and ".join('0 <= %s <= 255' % b for b in _bs)], tier=_tier, timeout=2400, path_timeout=300, drives=UDP_DRIVES,
+           bounds='real main.enip_srv_udp: EVERY datagram of 0..%d bytes from one peer (a truncated header), then a List Identity datagram from another peer: the second '
+                  'peer receives exactly the reply it receives when alone' % _n, outside='longer datagrams (the TCP obligations cover longer hostile frames)')
